@@ -19,7 +19,11 @@ SPEC = {
              "MaxAttempts and at 1000 node slots; single transient storage fault (schedule code 2: the storage call of that step, in "
              "the shared tier for hybrid stores, returns an error): every fault position x every schedule of length 4/5 x "
              "2-3 nodes each with its own hybrid store over one shared tier, plus one random fault in a third of the random "
-             "histories; lease clause: the caller's ctx stays live while a node runs, the heartbeat goroutine started by the claim is "
+             "histories; expiry GC: `c` = a CleanupExpired pass through the instance's storage object (hybrid delegates to its "
+             "local cache) and directly on the shared claim store; gated: every schedule of length 5 over two claimants and a "
+             "sweeper after the markers lapsed; free-running: 3-8 claimants and 1-2 sweepers released together onto "
+             "expired-unswept markers on memory / hybrid(memory) / single-node hybrid, the map padded with 3000 unrelated keys so "
+             "that claims arrive during a pass; lease clause: the caller's ctx stays live while a node runs, the heartbeat goroutine started by the claim is "
              "identified by an inherited pprof label and its liveness is sampled from goroutine profiles; the `w` op is the 30 s "
              "ticker firing: it renews (the loop's own renewNodeID) iff that goroutine is alive, else reports `dead`; time is "
              "virtual (fake-clock double, miniredis FastForward); release clause: a further Release() of an allocator that already released its id, driven through the real "
